@@ -4,6 +4,7 @@ import (
 	"fmt"
 	"go/token"
 	"go/types"
+	"sort"
 	"strings"
 
 	"golang.org/x/tools/go/ssa"
@@ -37,6 +38,9 @@ const preamble = `(declare-sort Str 0)
 (declare-fun sref (Int Int Int) Int)
 (assert (forall ((b Int) (o Int) (i Int)) (! (= (sref b o i) (eref b (+ o i))) :pattern ((sref b o i)))))
 (declare-fun ref.tag (Int) Int)
+(declare-fun ref.root (Int) Int)
+(declare-fun ref.old (Int) Bool)
+(assert (forall ((b Int) (i Int)) (! (= (ref.root (eref b i)) (ref.root b)) :pattern ((eref b i)))))
 (declare-fun iface.type (Int) Int)
 (assert (forall ((b Int) (i Int)) (! (and (= (eref.base (eref b i)) b) (= (eref.idx (eref b i)) i) (not (= (eref b i) 0)) (= (ref.tag (eref b i)) 1)) :pattern ((eref b i)))))
 `
@@ -111,11 +115,14 @@ func (e *Enc) Encode() (err error) {
 		}
 	}
 	e.disc = map[*ssa.BasicBlock]map[string]bool{}
+	e.allWrites = map[string]bool{}
 	e.discovery = true
 	e.encodeBody()
 	disc := e.disc
 	e.discovery = false
+	allW := e.allWrites
 	e.reset()
+	e.allWrites = allW
 	for _, li := range e.loopList {
 		li.writes = disc[li.header]
 	}
@@ -223,7 +230,6 @@ func (e *Enc) block(b *ssa.BasicBlock) {
 	var inPreds []*ssa.BasicBlock
 	if b == fn.Blocks[0] {
 		e.curR = tTrue
-		e.cur = e.cur // entry heap already set
 	} else {
 		for _, p := range b.Preds {
 			if e.isBackEdge(p, b) {
@@ -431,6 +437,11 @@ func (e *Enc) assertInvariants(li *loopInfo, from *ssa.BasicBlock, edgeCond Term
 	for j, t := range e.autoInvariants(li, sub) {
 		e.assertOb(fmt.Sprintf("loop%d/%s/auto#%d", li.ordinal, kind, j+1), t, "range index bounds", token.NoPos)
 	}
+	if e.fc != nil && !e.fc.ModAll && !e.discovery && !li.writes["*"] {
+		for _, g := range e.frameGoals(heap, sortedKeys(li.writes)) {
+			e.assertOb(fmt.Sprintf("loop%d/%s/frame:%s", li.ordinal, kind, shortFam(g.name)), g.goal, "loop respects the function frame for "+g.name, token.NoPos)
+		}
+	}
 	if li.lc != nil {
 		ctx := e.loopCtx(li, heap, sub)
 		for j, inv := range li.lc.Invariants {
@@ -452,6 +463,11 @@ func (e *Enc) assumeInvariants(li *loopInfo) {
 	for _, t := range e.autoInvariants(li, nil) {
 		e.assume(t, "range index bounds")
 	}
+	if e.fc != nil && !e.fc.ModAll && !e.discovery && !li.writes["*"] {
+		for _, g := range e.frameGoals(e.cur, sortedKeys(li.writes)) {
+			e.assume(g.goal, "loop respects the function frame for "+g.name)
+		}
+	}
 	if li.lc != nil {
 		ctx := e.loopCtx(li, e.cur, nil)
 		for _, inv := range li.lc.Invariants {
@@ -472,7 +488,11 @@ func (e *Enc) assumeInvariants(li *loopInfo) {
 
 func (e *Enc) ret(r *ssa.Return) {
 	e.retOrd++
-	if e.fc == nil || len(e.fc.Ensures) == 0 {
+	if e.fc == nil {
+		return
+	}
+	e.frameCheck(r)
+	if len(e.fc.Ensures) == 0 {
 		return
 	}
 	ctx := e.baseCtx()
@@ -537,4 +557,209 @@ func (e *Enc) QueryFor(i int) string {
 	}
 	sb.WriteString("(check-sat)\n")
 	return sb.String()
+}
+
+// Frame checking ------------------------------------------------------------
+
+type frameItem struct {
+	fam string
+	all bool
+	key func(r Term) Term
+}
+
+func (e *Enc) locFrameItems(l Loc) []frameItem {
+	var out []frameItem
+	ref := l.Ref
+	switch l.Kind {
+	case locCell:
+		if shapeKindOf(l.Typ) == kSlice {
+			for _, sfx := range []string{"#base", "#off", "#len", "#cap"} {
+				out = append(out, frameItem{fam: l.Fam + sfx, key: func(r Term) Term { return eq(r, ref) }})
+			}
+		} else {
+			out = append(out, frameItem{fam: l.Fam, key: func(r Term) Term { return eq(r, ref) }})
+		}
+	case locInst:
+		switch u := l.Typ.Underlying().(type) {
+		case *types.Struct:
+			for i := 0; i < u.NumFields(); i++ {
+				out = append(out, e.locFrameItems(e.fieldLoc(l.Ref, l.Typ, i))...)
+			}
+		case *types.Array:
+			for _, f := range e.elemFams(u.Elem()) {
+				out = append(out, frameItem{fam: f.name, key: func(r Term) Term { return eq(r, eref(ref, app(SInt, "eref.idx", r))) }})
+			}
+		}
+	}
+	return out
+}
+
+func (e *Enc) frameItems(ctx *SpecCtx, m Expr) (items []frameItem) {
+	defer func() {
+		if r := recover(); r != nil {
+			if se, ok := r.(specError); ok {
+				e.fatal("modifies %s: %s", m.String(), se.msg)
+			}
+			panic(r)
+		}
+	}()
+	switch x := m.(type) {
+	case *ESel:
+		base := ctx.eval(x.X)
+		pt, ok := base.T.Underlying().(*types.Pointer)
+		if !ok {
+			ctx.fail("modifies: %s is not a pointer", x.X)
+		}
+		obj, index := lookupFieldAnyPkg(pt.Elem(), x.F)
+		if obj == nil {
+			ctx.fail("modifies: no field %s", x.F)
+		}
+		ref := base.V.(Sc).T
+		t := pt.Elem()
+		var l Loc
+		for _, idx := range index {
+			l = e.fieldLoc(ref, t, idx)
+			ref = l.Ref
+			t = l.Typ
+		}
+		return e.locFrameItems(l)
+	case *EIndex:
+		base := ctx.eval(x.X)
+		switch t := base.T.Underlying().(type) {
+		case *types.Slice:
+			sv := base.V.(SliceV)
+			i := ctx.asInt(ctx.eval(x.I))
+			return e.locFrameItems(sliceElemLoc(sv, i, t.Elem()))
+		case *types.Map:
+			mi := e.mapInfoOf(base.T)
+			if !mi.ok {
+				return []frameItem{{all: true}}
+			}
+			mref := base.V.(Sc).T
+			for _, hn := range e.mapHeapNames(mi) {
+				items = append(items, frameItem{fam: hn.name, key: func(r Term) Term { return eq(r, mref) }})
+			}
+			return items
+		}
+	case *ECall:
+		id, _ := x.Fn.(*EIdent)
+		if id == nil {
+			ctx.fail("modifies: unsupported form")
+		}
+		switch id.Name {
+		case "elems":
+			base := ctx.eval(x.Args[0])
+			sv := base.V.(SliceV)
+			st := base.T.Underlying().(*types.Slice)
+			for _, f := range e.elemFams(st.Elem()) {
+				items = append(items, frameItem{fam: f.name, key: func(r Term) Term { return eq(r, eref(sv.Base, app(SInt, "eref.idx", r))) }})
+			}
+			return items
+		case "mapof":
+			base := ctx.eval(x.Args[0])
+			mi := e.mapInfoOf(base.T)
+			if !mi.ok {
+				return []frameItem{{all: true}}
+			}
+			mref := base.V.(Sc).T
+			for _, hn := range e.mapHeapNames(mi) {
+				items = append(items, frameItem{fam: hn.name, key: func(r Term) Term { return eq(r, mref) }})
+			}
+			return items
+		case "deref":
+			base := ctx.eval(x.Args[0])
+			pt := base.T.Underlying().(*types.Pointer)
+			return e.locFrameItems(locOfRef(base.V.(Sc).T, pt.Elem()))
+		case "allof":
+			fams := e.allofFams(ctx, x)
+			for _, f := range fams {
+				items = append(items, frameItem{fam: f, key: func(r Term) Term { return tTrue }})
+			}
+			return items
+		}
+	}
+	ctx.fail("modifies: unsupported location expression")
+	return nil
+}
+
+// frameGoals: for every shared heap family in `names`, the formula stating that heap `h` agrees with
+// the entry heap outside the locations of the modifies clauses; objects allocated during the call
+// (not ref.old) are exempt.
+func (e *Enc) frameGoals(h *HeapState, names []string) []struct {
+	name string
+	goal Term
+} {
+	ctx := e.baseCtx()
+	ctx.heap = e.entry
+	var items []frameItem
+	for _, m := range e.fc.Modifies {
+		items = append(items, e.frameItems(ctx, m)...)
+	}
+	rv := Term{"fr!", SInt}
+	var out []struct {
+		name string
+		goal Term
+	}
+	for _, n := range names {
+		if strings.HasPrefix(n, "L$") || n == "*" {
+			continue
+		}
+		srt := e.famSorts[n]
+		if srt == "" {
+			continue
+		}
+		cur := h.get(n, srt)
+		ent := e.entry.get(n, srt)
+		if cur.S == ent.S {
+			continue
+		}
+		var allowed []Term
+		for _, it := range items {
+			if it.all {
+				allowed = append(allowed, tTrue)
+			} else if it.fam == n {
+				allowed = append(allowed, it.key(rv))
+			}
+		}
+		goal := mk(SBool, "(forall ((fr! Int)) (! (=> (and (ref.old (ref.root fr!)) (not %s)) (= (select %s fr!) (select %s fr!))) :pattern ((select %s fr!))))", or(allowed...).S, cur.S, ent.S, cur.S)
+		out = append(out, struct {
+			name string
+			goal Term
+		}{n, goal})
+	}
+	return out
+}
+
+func (e *Enc) frameCheck(r *ssa.Return) {
+	if e.discovery || e.fc.ModAll {
+		return
+	}
+	if e.allWrites["*"] {
+		e.assertOb(fmt.Sprintf("frame:all@ret%d", e.retOrd), tFalse, "a callee without contract may modify any memory, but the contract does not say `modifies *`", posOf(r))
+		return
+	}
+	var names []string
+	for n := range e.allWrites {
+		names = append(names, n)
+	}
+	sort.Strings(names)
+	for _, g := range e.frameGoals(e.cur, names) {
+		e.assertOb(fmt.Sprintf("frame:%s@ret%d", shortFam(g.name), e.retOrd), g.goal, "frame: "+g.name+" unchanged outside the modifies clause", posOf(r))
+	}
+}
+
+func shortFam(n string) string {
+	if i := strings.LastIndex(n, "~"); i >= 0 {
+		return n[i+1:]
+	}
+	return n
+}
+
+func sortedKeys(m map[string]bool) []string {
+	var out []string
+	for k := range m {
+		out = append(out, k)
+	}
+	sort.Strings(out)
+	return out
 }
